@@ -177,6 +177,13 @@ func c16Check(c C16Case, rec *evid.Rec) error {
 			if !ok {
 				b, ok = real.Mem.Bag[k]
 			}
+			if !ok {
+				// a block that was reached through a link carrying it is stored again under such a link
+				k = graph.IdCidOf(nb)
+				if b, ok = wstore.Bag[k]; !ok {
+					b, ok = real.Mem.Bag[k]
+				}
+			}
 			enc, _ := refcbor.Encode(nb)
 			if !ok || !bytes.Equal(b, enc) {
 				return fmt.Errorf("%s: updated block %s was not stored under its new link", where, nb.Short(100))
@@ -292,6 +299,7 @@ var c16Focused = evid.Part[C16Case]{
 	Rule: "block graph × sequence of 1-4 FocusedTransforms (each applied to the previous result): target = existing position (map value, list element, below links, root), new map key, list append, missing parents with/without createParents, out-of-bounds / non-numeric index, past a scalar; edit = replace by a drawn value, identity, remove; separate read and write stores; every step that rewrites blocks is repeated with a storage whose first / last commit fails and must then fail; non-trivial = target depth ≥2, below a link, a later step of a sequence, a removal or an insertion; distinct by (graph, steps)",
 	Gen: func(t *rapid.T) C16Case {
 		o := graph.DefaultOpts()
+		o.IdAliases = true
 		o.LinkHeavy = rapid.Bool().Draw(t, "linkheavy")
 		g := graph.Draw(t, o)
 		if g.Root.K == val.Null {
@@ -346,6 +354,7 @@ var c16Focused = evid.Part[C16Case]{
 				cur = r.Root
 				for _, nb := range r.NewBlocks {
 					store[graph.CidOf(nb)] = nb.SortKeys(val.LessLenFirst)
+					store[graph.IdCidOf(nb)] = nb.SortKeys(val.LessLenFirst)
 				}
 			} else {
 				break
